@@ -203,6 +203,11 @@ def check_case(case):
         before_req = len(wire.requests)
         real = req.call('supvisors', real_method, *(args + (('',) if real_method == 'start_process' else ()) + (False,)))
         classes.append(f'real:{real_method}:{real[0]}')
+        if real[0] == 'exc':
+            # nothing but an RPCError may come out of the real request issued from a situation that was just predicted
+            exc_type = str(real[1]).split('(', 1)[0]
+            return (f'real-start-raised:{real_method}:{exc_type}', f'{req.nick}.{real_method}{args} raises {real[1]}; '
+                    f'dist={case["dist"]} nodes={case["nodes"]} tprogs={case["tprogs"]}'), True, classes
         for _ in range(12):
             s.runner.step({})
         started = {}
